@@ -80,7 +80,7 @@ def gen_benign(fn: FuncInfo) -> List[Edit]:
         if isinstance(n, (ast.If, ast.While)):
             add(n.test, "not (not (%s))" % seg(n.test), "test-dblneg")
         if isinstance(n, ast.If) and n.orelse and not (len(n.orelse) == 1 and isinstance(n.orelse[0], ast.If)) \
-                and all(one_line(x) or True for x in n.body):
+                and not m.lines[n.lineno - 1][n.col_offset:].startswith("elif"):
             # rebuild with swapped branches, keeping the original text of each branch
             ind = indent_of(n)
             body_first, body_last = n.body[0], n.body[-1]
